@@ -87,6 +87,7 @@ class MProfile:
         self.weights = None
         self.big_disk = 0.15
         self.p_running = 0.7
+        self.p_read_fault = (0.2, 0.02)     # a connection loss at one read while the master handles what is pending: (events pending, none)
         self.__dict__.update(kw)
 
 
@@ -1082,6 +1083,15 @@ class MasterDriver:
     def _between_operator_writes(self, client, op, path):
         """An operator command is several ZooKeeper requests; the master's watches may fire between any two of them.
         Now and then the master handles what is pending right before the next write of the operator."""
+        rf = getattr(self, 'read_fault', None)
+        if rf is not None and client is self.mclient and op in ('get', 'get_children', 'exists') and path.startswith(rf[0]):
+            rf[1] -= 1
+            if rf[1] <= 0:
+                # the master's connection drops at this one request (kazoo raises ConnectionLoss to the caller)
+                import kazoo.exceptions as _kx
+                self.read_fault = None
+                self.read_fault_fired = (op, path)
+                raise _kx.ConnectionLoss()
         if (client is not self.admin or op not in ('create', 'set', 'delete') or self.master is None or self.interleaving
                 or getattr(self, 'master_died', None)
                 or self.cutter is not None and getattr(self.cutter, 'armed', False)):
